@@ -30,7 +30,7 @@ CLAIMED = {
         "category": "exploration",
         "text": "SPV sessions of the real client (get_filtered_txs, wait_for(HeadersMessage/Block), MerkleBlock.is_valid/proved_txs, HeadersMessage.is_valid, Block.check_pow/validate_merkle_root) against an honest or lying stub peer serving a synthetic chain: every validated proof yields only txids of the block (M1), honest proofs yield exactly the matched ids (M2), header verdicts equal the reference PoW/linkage (M3). Alterations are the property's catalogue injected in flight.",
         "design_ref": "DESIGN.md 5.1, 6 (C17)",
-        "note": "Trusted: ref/merkle.py (BIP37 builder, consensus root), ref/p2p.py (SetCompact, PoW), stub peer's ground truth. merkle_root/bits/retarget equalities are pure and sampled through the served chain and the retarget / header_edits operations (incl. negative, zero and overflowing compact targets served by a Byzantine peer). One open known finding (a proof over the block's first interior level validates: leaf/interior ambiguity). BIP37 strictness beyond the statement (left-over hashes or flag bits) is not demanded.",
+        "note": "Trusted: ref/merkle.py (BIP37 builder, consensus root), ref/p2p.py (SetCompact, PoW), stub peer's ground truth. merkle_root/bits/retarget equalities are pure and sampled through the served chain and the retarget / header_edits operations (incl. negative, zero and overflowing compact targets served by a Byzantine peer). One open known finding (a proof over the block's first interior level validates: leaf/interior ambiguity). BIP37 strictness beyond the statement (left-over hashes or flag bits) is not demanded. Trees of 1..8 leaves x all match subsets (thorough: 1..10) are enumerated, and blocks of 1000-5000 transactions with dense match sets go through the wire parser (hash and flag-byte counts across the one-byte compact-size boundary).",
         "technique": "deterministic simulation of an SPV session against a Byzantine peer; ground-truth oracle from the peer's chain",
     },
 }
@@ -46,7 +46,7 @@ CLAIMED["C15"] = {
     "category": "exploration",
     "text": "Dealer (real generate_shares under a simulated RNG incl. adversarial and replayed streams), n custodians, an arrival channel with loss, duplication, order, word corruption, swaps, truncation and mixing of splits, and a recoverer that attempts recovery between arrivals and reuses one ShareSet with several passphrases: >= k distinct genuine shares alone always recover the exact mnemonic (V1), < k never return (V2), <= 3-word corruption and mixed splits are rejected (V3), anything returned is the original (V4), share text / encryption round-trip and recovery is history-independent (V5). Published SLIP39 vectors serve as shares from another implementation. Seeded search plus enumeration over (k, n) pairs and subset sizes k-1, k, k+1, n.",
     "design_ref": "DESIGN.md 5.6, 6 (C15)",
-    "note": "Trusted: CPython, hashlib PBKDF2/HMAC, the dealer's own mnemonic as ground truth, the published vectors (data). 2^-32 digest coincidences are treated as impossible. Interpolation identities are checked on the share points of each run (not the GF(256) tables exhaustively). Share objects are exported repeatedly; n shares are expected for every (k, n) including k = 1.",
+    "note": "Trusted: CPython, hashlib PBKDF2/HMAC, the dealer's own mnemonic as ground truth, the published vectors (data). 2^-32 digest coincidences are treated as impossible. Interpolation identities are checked on the share points of each run (not the GF(256) tables exhaustively). Share objects are exported repeatedly; n shares are expected for every (k, n) including k = 1. Shares written by a reference encoder with any legal header (two-level group/member fields) must parse, read back field by field and encode back to their own text; an honest split that raises is a violation.",
     "technique": "deterministic simulation of dealer/custodians/recoverer with RNG seam and share-channel fault injection; ground-truth oracle",
 }
 
@@ -61,7 +61,7 @@ CLAIMED["C06"] = {
     "category": "exploration",
     "text": "Spends of all eight signable output types are built and signed through the library's helpers inside generated histories of sign / verify / edit / revert / clone / re-parse. verify_input must be True exactly when the input still carries its signature and the current reference digest equals the signed one, stable under repetition and on a re-parsed copy (H3); every fresh spend verifies and its signatures verify under an independent ECDSA/BIP340 verifier over the reference digest (H4).",
     "design_ref": "DESIGN.md 5.3, 6 (C06)",
-    "note": "Trusted: ref/secp.py, ref/sighash.py, ref/stdverify.py (standard templates only, not an interpreter). The property's forgery catalogue is applied as in-flight tampering of a signed transaction between signer and verifier (T1: receiver says valid => reference finds the spend authorised), enumerated per output type in the quick tier; malformed-encoding-only changes that leave the authorisation intact are not demanded to fail. Quorums are limited to n <= 3 keys for speed.",
+    "note": "Trusted: ref/secp.py, ref/sighash.py, ref/stdverify.py (standard templates only, not an interpreter). The property's forgery catalogue is applied as in-flight tampering of a signed transaction between signer and verifier (T1: receiver says valid => reference finds the spend authorised), enumerated per output type in the quick tier; malformed-encoding-only changes that leave the authorisation intact are not demanded to fail. Quorums are limited to n <= 3 keys for speed. Legacy outputs also with uncompressed public keys; spends signed by the reference with any hash type (the library's ECDSA signers only make SIGHASH_ALL) are signed states too, judged after edits (enumerated: every output type x hash type x edits of the other input's outpoint / sequence); the type byte is also changed in its undefined bits.",
     "technique": "deterministic simulation of sign/edit/verify histories on one object; verdict oracle from a reference digest model",
 }
 
@@ -77,7 +77,7 @@ CLAIMED["C13"] = {
     "category": "exploration",
     "text": "Two-round MuSig among 2-5 simulated participants and an aggregator, each building its own MuSigTapScript from the keys in its own arrival order, nonces from a seeded or boundary-valued RNG behind buidl.taproot.randbelow, 1-2 sessions on the same objects (plain and taproot-tweaked), with duplicate / dropped / bit-flipped / stale partial signatures, nonces corrupted towards a subset and participant crash-restart between rounds: all parties agree on the aggregate key (U1), a returned signature verifies under an independent BIP340 verifier (U2), get_signature returns exactly when one consistent partial signature per participant arrived (U3), honest sessions succeed (U4); k-of-n trees: leaf count C(n,k), each k-subset owns exactly one leaf and a spend of it by that subset verifies in the library and under a reference script-path check (U5).",
     "design_ref": "DESIGN.md 5.5, 6 (C13)",
-    "note": "Trusted: ref/secp.py, ref/sighash.py. The aggregate key is the library's own definition (not compared with BIP327). One open known finding (nonce sums at the point at infinity). Sessions may be retries of the same message on the same objects (bounded liveness once faults stop); the dealer may produce further trees from one object before the first is used; an input may first be initialised for another subset's leaf. pecc is slow (45 ms per scalar multiplication): ~20 k runs/hour.",
+    "note": "Trusted: ref/secp.py, ref/sighash.py. The aggregate key is the library's own definition (not compared with BIP327). One open known finding (nonce sums at the point at infinity). Sessions may be retries of the same message on the same objects (bounded liveness once faults stop); the dealer may produce further trees from one object before the first is used; an input may first be initialised for another subset's leaf; the coins' tree may be time-locked (script-number width boundaries; BIP65/BIP112 in the reference) and composite (everything_tree, musig_and_single_leaf_tree). pecc is slow (45 ms per scalar multiplication): ~20 k runs/hour.",
     "technique": "deterministic simulation of a multi-party signing protocol with message-fault injection and RNG seam; independent BIP340 verification",
 }
 
@@ -85,14 +85,14 @@ CLAIMED["C10"] = {
     "category": "exploration",
     "text": "A signing ceremony of coordinator (creator/updater/combiner/finaliser/extractor) and n signers, all running the real PSBT code, over an explicit delivery schedule (star, chain, gossip) with duplicated, stale, lost and bit-flipped messages, cross-talk from another spend, crash-restart from the last stored serialisation, and Byzantine signers: every emitted message is a codec fixed point with a non-witness unsigned transaction (Q1, Q2); the combiner's bytes and the extracted transaction equal those of the canonical schedule for the same signer set (Q3, library against library); a transaction is extracted exactly when every input has the threshold of script-key signatures, and it is authorised per the reference (Q4); messages with a partial signature the reference finds invalid are rejected at load (Q5); different transactions do not combine (Q6); fault-free ceremonies complete (Q7). All signer subsets and arrival orders of a 2-of-3 are enumerated.",
     "design_ref": "DESIGN.md 5.4, 6 (C10)",
-    "note": "Trusted: ref/psbtmap.py, ref/stdverify.py, ref/secp.py, ref/sighash.py, ref/wallet.py. Byte-equality with the canonical schedule is demanded only when no corrupted message was accepted. Third-party creator/finaliser shapes (both UTXO records, previous transaction only, no empty final-scriptSig record), account paths of depth 0..4, parsing with and without a network argument, re-tagged and UTXO-stripped signatures, in-place finalisation and operand reuse are part of the workload. Not simulated: PSBTs of several wallets in one transaction, testnet keys. pecc is slow: ~6-10 k runs/hour; quorums up to 3 (thorough: 4), 1-3 inputs.",
+    "note": "Trusted: ref/psbtmap.py, ref/stdverify.py, ref/secp.py, ref/sighash.py, ref/wallet.py. Byte-equality with the canonical schedule is demanded only when no corrupted message was accepted. Third-party creator/finaliser shapes (both UTXO records, previous transaction only, no empty final-scriptSig record), account paths of depth 0..4, parsing with and without a network argument, re-tagged and UTXO-stripped signatures, in-place finalisation and operand reuse are part of the workload, as is an updater whose key lookup comes from the library's BIP44 helper (single-key wallets spending received and change coins through the HD signer). Not simulated: PSBTs of several wallets in one transaction, testnet keys. pecc is slow: ~6-10 k runs/hour; quorums up to 3 (thorough: 4), 1-3 inputs.",
     "technique": "deterministic simulation of a multi-party PSBT workflow with message-fault injection and crash-restart; confluence against a canonical schedule plus reference verification",
 }
 CLAIMED["C11"] = {
     "category": "exploration",
     "text": "An honest signer reviews (describe_basic_multisig) every PSBT it receives from a coordinator whose message is honest, tampered in flight with one entry of the property's catalogue, or hit by random byte corruption, before signing: the summary's fee and totals equal the stub's ground truth and are conserved (R1); every output labelled change commits, in the received unsigned transaction, to the wallet's m-of-n script made of exactly one derived key per cosigner (R2); honest PSBTs are summarised (R3). The catalogue is enumerated against P2SH and P2WSH wallets in the quick tier.",
     "design_ref": "DESIGN.md 5.4, 6 (C11)",
-    "note": "Weakest fit for this technique: a per-message check in a two-party setting, no ordering dimension. Trusted: ref/wallet.py, ref/psbtmap.py. One open known finding (witness-UTXO amounts of pure p2wsh inputs are not verifiable from the PSBT; not raised when the signer first updates from its own records). Quorums up to 15-of-15 in the enumerated families. p2sh-p2wsh is not supported by the summary and not exercised.",
+    "note": "Weakest fit for this technique: a per-message check in a two-party setting, no ordering dimension. Trusted: ref/wallet.py, ref/psbtmap.py. One open known finding (witness-UTXO amounts of pure p2wsh inputs are not verifiable from the PSBT; not raised when the signer first updates from its own records). Quorums up to 15-of-15 in the enumerated families. The catalogue includes look-alike templates and legacy inputs carrying both UTXO records with a script that is not the coin's. p2sh-p2wsh is not supported by the summary and not exercised.",
     "technique": "deterministic simulation of a coordinator-signer exchange with Byzantine-coordinator tampering and byte corruption in flight; ground-truth oracle from an independent wallet model",
 }
 
